@@ -52,6 +52,84 @@ SM_KEYS = [3, 4, 6, 7, 8]
 EPS = [1, 2 ** 30]
 E_BPMS = [60, 75, 100, 120, 125, 128, 150, 160, 200, 240, 250, 300, 187.5, 93.75]
 BMS_LANES = {k: len(v) for k, v in c04.LAYOUTS.items()}
+MAX_MEASURES = 150
+MAX_TEXT = 80000
+
+
+PIPELINE_LIMIT_S = 8
+
+
+def in_child(fn, seconds):
+    """run fn() in a forked child; None when it does not finish within `seconds`"""
+    import os
+    import pickle
+    import select
+    import signal
+    r, w = os.pipe()
+    pid = os.fork()
+    if pid == 0:
+        try:
+            os.close(r)
+            data = pickle.dumps(fn())
+            with os.fdopen(w, "wb") as f:
+                f.write(data)
+        finally:
+            os._exit(0)
+    os.close(w)
+    chunks = []
+    deadline = __import__("time").time() + seconds
+    try:
+        while True:
+            left = deadline - __import__("time").time()
+            if left <= 0:
+                os.kill(pid, signal.SIGKILL)
+                return None
+            ready, _, _ = select.select([r], [], [], left)
+            if not ready:
+                os.kill(pid, signal.SIGKILL)
+                return None
+            b = os.read(r, 1 << 16)
+            if not b:
+                break
+            chunks.append(b)
+    finally:
+        os.close(r)
+        try:
+            os.waitpid(pid, 0)
+        except ChildProcessError:
+            pass
+    try:
+        return pickle.loads(b"".join(chunks))
+    except Exception:
+        return None
+
+
+class TooSlow(BaseException):
+    pass
+
+
+class time_limit:
+    def __init__(self, seconds):
+        self.seconds = seconds
+        self.armed = False
+
+    def _raise(self, *a):
+        raise TooSlow()
+
+    def __enter__(self):
+        import signal
+        import threading
+        if threading.current_thread() is threading.main_thread():
+            self.old = signal.signal(signal.SIGALRM, self._raise)
+            signal.setitimer(signal.ITIMER_REAL, self.seconds)
+            self.armed = True
+
+    def __exit__(self, *a):
+        import signal
+        if self.armed:
+            signal.setitimer(signal.ITIMER_REAL, 0)
+            signal.signal(signal.SIGALRM, self.old)
+        return False
 
 
 def _quiet():
@@ -90,6 +168,8 @@ def gen_ms_chart(rng, tgt, tier, force_keys=None):
     else:
         keys = rng.choice([1, 2, 3, 4, 4, 5, 6, 7, 7, 8, 9, 10, 12, 18])
     t0 = rng.choice([0, 0, 0, 1234, 500, 37, 2000.5, -250, 10.25, 333])
+    if tgt == "bms" and rng.random() < 0.5:
+        t0 = 0
     nb = rng.choice([1, 1, 2, 2, 3, 5])
     style = rng.choice(["grid", "grid", "int", "dec"])
     bpms = []
@@ -221,8 +301,30 @@ def _bms_keys(lines, layout):
 
 
 def _o2j_keys(case):
-    cols = [p["ch"] - 2 for lv in case["levels"][:1] for p in lv if 2 <= p.get("ch", 0) <= 8 and any(e and e[0] for e in p.get("ev", []) if isinstance(e, list))]
-    return (max(cols) + 1) if cols else None
+    """inferred key count of every level"""
+    out = []
+    for lv in case["levels"]:
+        cols = [p["ch"] - 2 for p in lv if 2 <= p.get("ch", 0) <= 8 and any(e and e[0] for e in p.get("ev", []) if isinstance(e, list))]
+        out.append((max(cols) + 1) if cols else None)
+    return out
+
+
+def _sm_on_lines(items, zero_offset):
+    """move every #BPMS change of a c02 case onto a measure line (and, for BMS targets, #OFFSET to 0)"""
+    for it in items:
+        if it[0] == "bpms":
+            seen, out = set(), []
+            for b, v in it[1]:
+                try:
+                    k = int(round(float(b) / 4)) * 4
+                except ValueError:
+                    k = 0
+                if k not in seen:
+                    seen.add(k)
+                    out.append((str(k), v))
+            it[1][:] = out
+        if zero_offset and it[0] == "tag" and it[1] == "OFFSET":
+            it[2] = "0"
 
 
 def _supported(tgt, keys):
@@ -254,6 +356,8 @@ def gen_source(rng, src, tgt, tier, i):
                 types = [it[1]["type"] for it in case["items"] if it[0] == "chart"]
                 ks = [c02.KEYED.get(t) for t in types]
                 if tgt != "qua" or all(k in QUA_KEYS for k in ks):
+                    if rng.random() < 0.6:
+                        _sm_on_lines(case["items"], zero_offset=(tgt == "bms"))
                     return "part", dict(items=case["items"], stream=case["stream"])
         return "part", dict(items=case["items"], stream=case.get("stream", "main")) if "items" in case else dict(text=c02.render(case))
     if src == "bms":
@@ -262,14 +366,20 @@ def gen_source(rng, src, tgt, tier, i):
             case = c04.gen(rng, tier, i)
             if _supported(tgt, _bms_keys(case["lines"], case["layout"])):
                 break
-        return "part", dict(layout=case["layout"], lines=case["lines"])
+        lines = list(case["lines"])
+        if rng.random() < 0.6:
+            up = [l.strip().upper() for l in lines]
+            for key, val in (("#TITLE", "song"), ("#ARTIST", "me"), ("#PLAYLEVEL", "3")):
+                if not any(u.startswith(key + " ") for u in up):
+                    lines.insert(0, f"{key} {val}")
+        return "part", dict(layout=case["layout"], lines=lines)
     if src == "o2j":
         case = None
         for _ in range(60):
             case = c07.gen(rng, tier, i)
             if case.get("claim") != "read" or case.get("opts"):
                 continue
-            if tgt != "sm" or True:
+            if tgt != "sm" or all(k in SM_KEYS for k in _o2j_keys(case)):
                 break
         return "part", {k: case[k] for k in ("hdr", "levels", "tail") if k in case}
     raise ValueError(src)
@@ -426,6 +536,20 @@ def write_real(tgt, obj, layout, I):
     return dict(fmt="bms", layout=layout, lines=[l.hex() for l in lines]), b.decode("shift_jis", "replace")
 
 
+SM_STR = ["title", "subtitle", "artist", "title_translit", "subtitle_translit", "artist_translit", "genre", "credit", "banner",
+          "background", "lyrics_path", "cd_title", "music", "display_bpm", "bg_changes", "fg_changes"]
+
+
+def hyp_sm_text_ok(sets):
+    """C03's domain: header strings without ; : # // and surrounding whitespace"""
+    clean = lambda x: isinstance(x, str) and x == x.strip() and not any(ch in x for ch in ";:#\\\n") and "//" not in x
+    try:
+        return all(clean(getattr(s, a)) for s in sets for a in SM_STR) and \
+            all(clean(m.description) and clean(m.difficulty) for s in sets for m in s.maps)
+    except Exception:
+        return True
+
+
 def maps_of(tgt, out):
     """the per-chart in-memory maps of a conversion result (SM: the set's charts)"""
     if tgt == "sm":
@@ -504,7 +628,9 @@ def _run(case, drv):
     if "ok" not in Ares:
         return _skip(claim, tags + ["src-no-denotation:" + str(Ares.get("err"))], None)
     A = Ares["ok"]
-    outside = list(A["why"]) + source_domain(case, A, payload)
+    # the validity flags of c09.abs are about *written* files; for a source they matter where they coincide with the part's
+    # domain (osu dialect lines, StepMania chart structure, O2Jam level well-formedness)
+    outside = (list(A["why"]) if src in ("osu", "sm", "o2j") else []) + source_domain(case, A, payload)
     if outside:
         return _skip(claim, tags + ["src-outside-part-domain"], outside)
     srcs = A["charts"]
@@ -535,8 +661,11 @@ def _run(case, drv):
     unsupported = []
     for i, a in enumerate(srcs):
         k = target_keys(i, a)
+        infer = tgt == "sm" or (src == "bms" and tgt in ("osu", "qua"))
+        if a["facts"]["keys"] is None and not infer:
+            continue
         if a["facts"]["keys"] is None:
-            unsupported.append("a chart without notes (converters infer the key count from the notes)")
+            unsupported.append("a chart without notes (the converter infers the key count from the notes)")
         elif k is None or (tgt == "qua" and k not in QUA_KEYS) or (tgt == "sm" and k not in SM_KEYS) or \
                 (tgt == "bms" and (k + shift > BMS_LANES[layout])) or (tgt == "osu" and not (1 <= k <= 18)) or \
                 (tgt in ("osu", "qua") and a["facts"]["keys"] > k):
@@ -546,21 +675,44 @@ def _run(case, drv):
     if unsupported:
         return _skip(claim, tags + ["target-does-not-support-keys"], unsupported)
 
+    # ---- harness limit: beat-based targets pad every empty measure; keep the written text small
+    if tgt in ("sm", "bms") and any(a["facts"]["first_tempo"] is not None and a["facts"]["bpm_positive"] and
+                                    measure_of(a, last_time(a)) > MAX_MEASURES for a in srcs):
+        return _skip(claim, tags + ["longer-than-%d-measures" % MAX_MEASURES], None)
+
     # ---- the real pipeline
     stage = "read"
     err = None
-    mem, conv_maps, written = [], [], []
+    mem, conv_maps, written, conv_objs = [], [], [], []
+    def pipeline():
+        st = "read"
+        mem_, conv_, written_, objs_ = [], [], [], []
+        try:
+            maps, ms = read_real(src, payload, case, I)
+            mem_ = [mem_abs(m) for m in maps]
+            st = "convert"
+            out = convert_real(src, tgt, maps, ms, shift, I)
+            objs_ = out
+            conv_ = [mem_abs(m) for m in maps_of(tgt, out)]
+            st = "write"
+            written_ = [write_real(tgt, o, layout, I) for o in out]
+            return None, mem_, conv_, written_, objs_
+        except Exception as e:
+            return f"{st}: {type(e).__name__}: {str(e)[:160]}", mem_, conv_, written_, objs_
+
     try:
-        maps, ms = read_real(src, payload, case, I)
-        mem = [mem_abs(m) for m in maps]
-        stage = "convert"
-        out = convert_real(src, tgt, maps, ms, shift, I)
-        conv_maps = [mem_abs(m) for m in maps_of(tgt, out)]
-        stage = "write"
-        written = [write_real(tgt, o, layout, I) for o in out]
+        if tgt == "bms":
+            # the BMS writer builds lines of lcm-many slots in single C calls (minutes for some tempo lists): run it in a
+            # forked child that can be killed; a timeout is a harness limit, not a verdict
+            got = in_child(lambda: pipeline()[:4], PIPELINE_LIMIT_S)
+            if got is None:
+                return _skip(claim, tags + ["pipeline-slower-than-%ds:not-judged" % PIPELINE_LIMIT_S], None)
+            err, mem, conv_maps, written = got
+        else:
+            err, mem, conv_maps, written, conv_objs = pipeline()
         stage = "done"
-    except Exception as e:
-        err = f"{stage}: {type(e).__name__}: {str(e)[:160]}"
+    except OSError as e:
+        err = f"harness: {type(e).__name__}: {str(e)[:160]}"
 
     # ---- predicates of the open findings and of the parts' hypotheses, on the source's denotation
     kf_pred = []
@@ -571,8 +723,8 @@ def _run(case, drv):
             hyp.append("two rows of one column at the same time")
         if f["neg_length"]:
             hyp.append("hold with negative length")
-        if not f["bpm_positive"] or not f["bpm_times_distinct"] or f["first_tempo"] is None:
-            hyp.append("tempo list: non-positive tempo / two points at one time / empty")
+        if not f["bpm_positive"] or f["first_tempo"] is None or (tgt in ("sm", "bms") and not f["bpm_times_distinct"]):
+            hyp.append("tempo list: non-positive tempo / empty / two points at one time into a beat-based file")
         if tgt in ("sm", "bms"):
             if f["before_first_tempo"]:
                 hyp.append("object before the first tempo point")
@@ -583,14 +735,10 @@ def _run(case, drv):
                 kf_pred.append("D35")
             if not f["bpm_3dec"]:
                 kf_pred.append("D06")
-            if f["first_tempo"] is not None and f["bpm_positive"] and measure_of(a, last_time(a)) >= 999:
-                kf_pred.append("D36")
         if tgt == "sm" and src == "qua":
             ts = [F(x[0]) for x in a["hits"]] + [F(x[0]) for x in a["holds"]] + [F(x[0]) for x in a["bpms"]] + [F(x) for x in info.get("sv_times", [])]
             if f["first_tempo"] is not None and ts and min(ts) != F(f["first_tempo"]):
                 kf_pred.append("N09a")
-        if tgt == "sm" and measure_of(a, last_time(a)) > 3000:
-            hyp.append("more than 3000 measures")
     if src == "bms":
         if not info.get("header_texts_present"):
             kf_pred.append("N09b")
@@ -600,6 +748,10 @@ def _run(case, drv):
             kf_pred.append("D22")
         if not info.get("resnap_stable"):
             hyp.append("tempo positions not stable under re-snapping")
+    if src == "qua" and tgt == "osu" and info.get("sv_zero"):
+        hyp.append("scroll velocity 0 (osu cannot express it)")
+    if tgt == "sm" and not hyp_sm_text_ok(conv_objs):
+        hyp.append("header text with ; : # // or surrounding blanks (outside C03's domain)")
     if src == "sm" and not info.get("tempo_on_grid"):
         hyp.append("a #BPMS beat off the 1/48 grid")
     if src == "sm" and len(srcs) > 1 and tgt == "sm":
@@ -611,7 +763,7 @@ def _run(case, drv):
         hyp.append("tempo change off the measure lines (re-seated by the reader: tempo values not comparable)")
     dom = not kf_pred and not hyp
 
-    res = "ms" if tgt in ("osu", "qua") else ([1, 96] if tgt == "sm" else [1, 192])
+    res = "ms" if tgt in ("osu", "qua") else ([[1, 96], [1, 192]] if tgt == "sm" else [[1, 192], [1, 192]])
     why = []
     detail = {}
     ok = True
@@ -631,14 +783,16 @@ def _run(case, drv):
         else:
             for i, a in enumerate(srcs):
                 # links the composition takes from the parts (resolution 0)
-                l1 = close(drv, [0, 1], False, 0, a, mem[i])
-                l2 = close(drv, [0, 1], False, shift, mem[i], conv_maps[i])
+                l1 = close(drv, [[0, 1], [0, 1]], False, 0, a, mem[i])
+                l2 = close(drv, [[0, 1], [0, 1]], False, shift, mem[i], conv_maps[i])
                 if objects_only:
                     l1["close"] = l1["hits"] and l1["holds"]
                 if not (l1["close"] and l2["close"]):
                     agree = False
                     detail.setdefault("links", []).append(dict(chart=i, reader_eq_denotation=l1["close"], converter_content=l2["close"],
                                                                reader=l1, conv=l2))
+                if len(written[i][1]) > MAX_TEXT:
+                    return _skip(claim, tags + ["written-text-too-large-for-the-harness"], None)
                 T = drv.call("c09.abs", **written[i][0])
                 if "ok" not in T:
                     if tgt == "bms" and T.get("time_sig"):
